@@ -1,3 +1,4 @@
+import copy
 from typing import Dict, Optional
 
 import numpy as np
@@ -60,6 +61,9 @@ class FitnessPySwarms(Fitness):
 
             if np.isnan(figure_of_merit):
                 figure_of_merit = -2.0 * self.resample_figure_of_merit
+            elif self.store_history:
+                self.parameters_history_list.append(copy.copy(params_of_particle))
+                self.log_likelihood_history_list.append(log_likelihood)
 
             figure_of_merit_list.append(figure_of_merit)
 
